@@ -154,6 +154,81 @@ static void bk_reuse_case()
     sym::witness("end");
 }
 
+// reuse with the SAME size: whatever the first factorization did (interchanges, 2x2 pivots), the second compute() on the same
+// object must factorize and solve the second matrix.  n = 2: both matrices symbolic; n = 3: the first matrix is numeric and
+// forces interchanges, the second is symbolic.
+static void bk_reuse_same_size_case(int n)
+{
+    RMat A1(n, n), A2(n, n), S2(n, n);
+    if (n == 2)
+        A1 = symx::fresh_mat("p", n, n);
+    else
+    {
+        A1 = RMat::Zero(n, n);
+        A1(1, 0) = Real(1);
+        A1(0, 1) = Real(1);
+        A1(2, 1) = Real(2);
+        A1(1, 2) = Real(2);
+        A1(2, 2) = Real(0.125);  // zero diagonal in front: interchanges and a 2x2 pivot
+    }
+    for (int i = 0; i < n; i++)
+        for (int j = 0; j <= i; j++)
+        {
+            Real a = sym::fresh("a_" + std::to_string(i) + "_" + std::to_string(j));
+            A2(i, j) = a;
+            S2(i, j) = a;
+            S2(j, i) = a;
+            if (i != j)
+                A2(j, i) = sym::fresh("junk_" + std::to_string(j) + "_" + std::to_string(i));
+        }
+    Spectra::BKLDLT<Real> solver(A1, Eigen::Lower, Real(0));
+    sym::note("first", std::string(info_name(solver.info())) + ", interchanges recorded: " + std::to_string(solver.m_permc.size()));
+    solver.compute(A2, Eigen::Lower, Real(0));
+    sym::note("second", info_name(solver.info()));
+    if (solver.info() != CompInfo::Successful)
+    {
+        sym::check_eq("NumericalIssue => det(A2) = 0", det(S2), Real(0));
+        sym::witness("end-numerical-issue");
+        return;
+    }
+    RVec b = symx::fresh_vec("b", n);
+    RVec x = solver.solve(b);
+    symx::check_mat_eq("second factorization solves the second system: A2 x = b", RVec(S2 * x), b);
+    sym::witness("end-successful");
+}
+
+// the dense shift-solve wrapper re-used: set_shift(sigma1); set_shift(sigma2); perform_op must solve with sigma2
+template <int Uplo>
+static void wrapper_reuse_case(int n)
+{
+    RMat A(n, n), S(n, n);
+    for (int i = 0; i < n; i++)
+        for (int j = 0; j <= i; j++)
+        {
+            Real a = sym::fresh("a_" + std::to_string(i) + "_" + std::to_string(j));
+            S(i, j) = a;
+            S(j, i) = a;
+            A(i, j) = a;
+            A(j, i) = a;
+        }
+    Real s1 = sym::fresh("sigma1"), s2 = sym::fresh("sigma2");
+    Spectra::DenseSymShiftSolve<Real, Uplo> op(A);
+    try
+    {
+        op.set_shift(s1);
+        op.set_shift(s2);
+    }
+    catch (const std::invalid_argument&)
+    {
+        sym::witness("end-threw");
+        return;
+    }
+    RVec xin = symx::fresh_vec("x", n), y(n);
+    op.perform_op(xin.data(), y.data());
+    symx::check_mat_eq("(A-sigma2 I)y=x after set_shift was called twice", RVec((S - s2 * RMat::Identity(n, n)) * y), xin);
+    sym::witness("end-solved");
+}
+
 // wrapper: DenseSymShiftSolve::set_shift throws std::invalid_argument exactly when the factorization fails
 template <int Uplo>
 static void wrapper_case(int n)
@@ -468,6 +543,10 @@ int main(int argc, char** argv)
         cases.push_back({"bk-lower-vs-upper/" + sn, [n]() { bk_lower_upper_case(n); }});
     }
     cases.push_back({"bk-reuse/zero-then-1x1", bk_reuse_case});
+    cases.push_back({"bk-reuse/same-size/n2", []() { bk_reuse_same_size_case(2); }});
+    cases.push_back({"bk-reuse/same-size/n3", []() { bk_reuse_same_size_case(3); }});
+    cases.push_back({"wrapper-reuse/DenseSymShiftSolve/lower/n2", []() { wrapper_reuse_case<Eigen::Lower>(2); }});
+    cases.push_back({"wrapper-reuse/DenseSymShiftSolve/upper/n2", []() { wrapper_reuse_case<Eigen::Upper>(2); }});
     for (int n = 1; n <= 3; n++)
     {
         cases.push_back({"wrapper/DenseSymShiftSolve/lower/n" + std::to_string(n), [n]() { wrapper_case<Eigen::Lower>(n); }});
